@@ -172,6 +172,9 @@ impl PropImpl for C12 {
     fn assumptions(&self) -> Vec<String> {
         vec!["the debversion crate's ordering is cross-checked against the pool's known order in every case; a disagreement is reported as an infrastructure error, not as a violation".into()]
     }
+    fn expected_labels(&self) -> Vec<&'static str> {
+        vec!["op:<<", "op:<=", "op:=", "op:>=", "op:>>", "installed:lower", "installed:equal", "installed:higher", "installed:absent", "installed:equal-but-spelled-differently", "epoch-vs-no-epoch", "tilde", "expected:satisfied", "expected:unsatisfied"]
+    }
     fn budget(&self, tier: Tier) -> Budget {
         Budget { cases_per_lane: if tier == Tier::Quick { 10000 } else { 60_000 }, tape_max: 200, cpu_s: 10 }
     }
